@@ -226,7 +226,13 @@ func (p *asProver) GenerateAggchainProof(ctx context.Context, req *aggsendertype
 		SP1StarkProof: &aggsendertypes.SP1StarkProof{Version: "v1", Proof: g.Bytes(16), Vkey: g.Bytes(8)}}, nil
 }
 func (p *asProver) GenerateOptimisticAggchainProof(req *aggsendertypes.AggchainProofRequest, sig []byte) (*aggsendertypes.AggchainProof, error) {
-	return nil, errors.New("verif: not used")
+	if !p.w.optOn {
+		p.w.r.Fail("[C10,C13] an optimistic proof was requested although the optimistic mode is off", append([]string{}, p.w.lines...))
+	}
+	if len(sig) == 0 || string(sig) != string(p.w.optSig) {
+		p.w.r.Fail("[C10] the optimistic proof was requested with a signature the optimistic signer did not produce for this request", append([]string{}, p.w.lines...))
+	}
+	return p.GenerateAggchainProof(context.Background(), req)
 }
 
 type asGER struct{}
@@ -235,9 +241,18 @@ func (asGER) GetInjectedGERsProofs(ctx context.Context, root *treetypes.Root, fr
 	return map[common.Hash]*agglayertypes.ProvenInsertedGERWithBlockNumber{}, nil
 }
 
-type asOptimistic struct{}
+type asOptimistic struct{ w *asWorld }
 
-func (asOptimistic) IsOptimisticModeOn() (bool, error) { return false, nil }
+func (o asOptimistic) IsOptimisticModeOn() (bool, error) { return o.w.optOn, nil }
+
+// optimistic signer: a deterministic "signature" over what it is given (recorded, so that the prover call can be matched)
+func (o asOptimistic) Sign(ctx context.Context, req aggsendertypes.AggchainProofRequest, newLER common.Hash, claims []bridgesync.Claim) ([]byte, string, error) {
+	b := make([]byte, 16)
+	binary.BigEndian.PutUint64(b, req.RequestedEndBlock)
+	binary.BigEndian.PutUint64(b[8:], uint64(len(claims)))
+	o.w.optSig = crypto.Keccak256([]byte("optimistic"), newLER[:], b)
+	return o.w.optSig, "verif", nil
+}
 
 // L1 client: only HeaderByNumber is used (by the L1 info tree data querier)
 type asL1Client struct {
@@ -324,6 +339,8 @@ type asWorld struct {
 	fep     bool   // aggchain-prover flow instead of the PP flow
 	prover  string // behaviour of the next prover call: "" (proves the whole range), "fail", "notyet", "cut:<k>"
 	nProofs int
+	optOn   bool   // what the rollup contract's optimistic-mode flag says
+	optSig  []byte // the optimistic signer's last signature
 	start   uint64
 	maxSize uint64
 	hist    bool
@@ -457,8 +474,12 @@ func (w *asWorld) rowsDump() string {
 		if h.PreviousLocalExitRoot != nil {
 			prev = w.lerName(*h.PreviousLocalExitRoot)
 		}
-		out = append(out, fmt.Sprintf("%d:%d:%s:%d:%d:%d:%s:%s", h.Height, h.CertificateID.Big().Uint64(), stName(h.Status),
-			h.FromBlock, h.ToBlock, h.RetryCount, prev, w.lerName(h.NewLocalExitRoot)))
+		typ := ""
+		if h.CertType == aggsendertypes.CertificateTypeOptimistic {
+			typ = ":o"
+		}
+		out = append(out, fmt.Sprintf("%d:%d:%s:%d:%d:%d:%s:%s%s", h.Height, h.CertificateID.Big().Uint64(), stName(h.Status),
+			h.FromBlock, h.ToBlock, h.RetryCount, prev, w.lerName(h.NewLocalExitRoot), typ))
 	}
 	if len(out) == 0 {
 		return "-"
@@ -485,7 +506,7 @@ func (w *asWorld) buildNode() {
 	var flow aggsendertypes.AggsenderFlow = flows.NewPPFlow(lg(), base, st, l1q, l2q, w.signer, false, 0)
 	if w.fep {
 		flow = flows.NewAggchainProverFlow(lg(), flows.NewAggchainProverFlowConfigDefault(), base, &asProver{w: w}, st, l1q, l2q,
-			asGER{}, nil, w.signer, asOptimistic{}, nil)
+			asGER{}, nil, w.signer, asOptimistic{w: w}, asOptimistic{w: w})
 	}
 	cfg := aggsendercfg.Config{
 		MaxRetriesStoreCertificate: 3,
@@ -690,6 +711,9 @@ func (w *asWorld) exec(line string) string {
 		w.retry, w.start, w.maxSize, w.hist = ws[1] == "1", u(ws[2]), u(ws[3]), ws[4] == "1"
 		w.agg.omitPrev = ws[5] == "1"
 		w.fep = len(ws) > 6 && ws[6] == "1"
+		return "ok"
+	case "opt": // opt on|off: the rollup contract's optimistic-mode flag
+		w.optOn = ws[1] == "on"
 		return "ok"
 	case "prover": // prover fail | notyet | cut <k>: what the next call to the aggchain prover does
 		w.prover = strings.Join(ws[1:], ":")
